@@ -295,6 +295,8 @@ def canon_states(states):
 
 
 def classify(case, detail):
+    if isinstance(case, dict) and case.get('kind') == 'cli-process':
+        return None
     """Narrow classifier of the open finding: the only difference to a fresh generation is the stale row of a
     path that was re-created (or modified) with a content differing from the one its row — still in the database
     at that moment — was recorded with."""
@@ -618,6 +620,8 @@ def exhaustive(ctx, im, depth):
 
 
 def run(ctx):
+    from props import cli_proc
+    cli_proc.stream(ctx, ['C16'])
     rng = ctx.rng
     im = Impl()
     try:
@@ -634,6 +638,9 @@ def run(ctx):
 
 
 def replay_case(ctx, case):
+    if isinstance(case, dict) and case.get('kind') == 'cli-process':
+        from props import cli_proc
+        return cli_proc.replay(case)
     im = Impl()
     try:
         states, fails = run_history(im, case)
@@ -647,6 +654,8 @@ def replay_case(ctx, case):
 
 
 def shrink(ctx, case):
+    if isinstance(case, dict) and case.get('kind') == 'cli-process':
+        return case
     im = Impl()
     try:
         def sig(c):
